@@ -33,6 +33,7 @@ def enc_game(gd):
         "players": list(gd["players"]),
         "transition_list": [[[_encx(a), t] for a, t in tr] for tr in gd["transition_list"]],
         "final_states": list(gd["final_states"]),
+        **({"_finals_tuple": True} if gd.get("_finals_tuple") else {}),
     }
 
 
@@ -42,6 +43,7 @@ def dec_game(j):
         "players": list(j["players"]),
         "transition_list": [[(_decx(a), t) for a, t in tr] for tr in j["transition_list"]],
         "final_states": list(j["final_states"]),
+        **({"_finals_tuple": True} if j.get("_finals_tuple") else {}),
     }
 
 
@@ -58,7 +60,8 @@ def to_solver(gd):
         # fresh string objects (as strings read from JSON / pickles / user input are): equal to the solver's constants, not identical
         "players": ["".join(list(p)) for p in gd["players"]],
         "transition_list": [[(_num(a), t) for a, t in tr] for tr in gd["transition_list"]],
-        "final_states": list(gd["final_states"]),
+        # a list unless the description asks for a tuple (both are accepted by the solver; repetitions are legal in either)
+        "final_states": tuple(gd["final_states"]) if gd.get("_finals_tuple") else list(gd["final_states"]),
     }
 
 
@@ -1407,6 +1410,43 @@ def gen_retry(rng):
     return renumber_random(rng, gd) if rng.random() < 0.5 else gd
 
 
+def gen_final_reps(rng):
+    """Any game, with its final states WRITTEN differently: every final state listed 1-4 times, in sorted / reversed / shuffled
+    order, as a list or a tuple; in a third of the cases the list has at least as many entries as the game has states, and a
+    repeated final state is never the largest one.  The game (the SET of final states) is unchanged."""
+    base = rng.choice(["G-ACY", "G-CYC", "G-DEAD", "G-ACYNF", "G-TIE", "G-LEX", "G-TINYB"])
+    gd = None
+    for _ in range(20):
+        gd = gen_class(rng, base)
+        if gd is not None:
+            break
+    if gd is None:
+        return None
+    fs = sorted(set(gd["final_states"]))
+    n = len(gd["players"])
+    reps = []
+    for i, f in enumerate(fs):
+        k = rng.choice([1, 2, 2, 3, 4])
+        if i == 0 and len(fs) > 1:
+            k = max(k, 2)                    # the smallest final state is repeated while larger ones exist
+        reps += [f] * k
+    if rng.random() < 0.35:
+        while len(reps) < n + rng.randint(0, 2):
+            reps.append(rng.choice(fs))
+    order = rng.choice(["sorted", "reversed", "shuffled", "grouped"])
+    if order == "sorted":
+        reps.sort()
+    elif order == "reversed":
+        reps.sort(reverse=True)
+    elif order == "shuffled":
+        rng.shuffle(reps)
+    out = dict(gd)
+    out["final_states"] = reps
+    if rng.random() < 0.4:
+        out["_finals_tuple"] = True
+    return out
+
+
 CLASSES = ["G-ACY", "G-CYC", "G-SLOW", "G-EC", "G-DEAD", "G-TIE", "G-LEX", "G-TINY"]
 
 
@@ -1464,6 +1504,8 @@ def gen_class(rng, cls, **kw):
         return gen_empty_label(rng)
     if cls == "G-NOREACH":
         return gen_no_reach(rng)
+    if cls == "G-FINREP":
+        return gen_final_reps(rng)
     if cls == "G-RETRY":
         return gen_retry(rng)
     if cls == "G-GAP":
